@@ -64,6 +64,22 @@ def gElem (ty : String) (x : Int) (ca : Feature → Option String) (ck : Feature
     (fs : List Feature) : XElem :=
   { ty := ty, attrs := (ID, showInt x) :: gAttrs ca fs, kids := gKids ck fs }
 
+/-- the attributes as written: under the names `xmlName` -/
+def gAttrsW (ca : Feature → Option String) : List Feature → List (String × String)
+  | [] => []
+  | f :: fs => (match ca f with | some s => [(xmlName f, s)] | none => []) ++ gAttrsW ca fs
+
+/-- the child elements as written: with the tags `xmlName` -/
+def gKidsW (ck : Feature → List (Option String)) : List Feature → List (String × Option String)
+  | [] => []
+  | f :: fs => (ck f).map (fun e => (xmlName f, e)) ++ gKidsW ck fs
+
+/-- the element as written (`gElem`: the same with every name replaced by the stored name, which is what the reader
+    makes of it) -/
+def gElemW (ty : String) (x : Int) (ca : Feature → Option String) (ck : Feature → List (Option String))
+    (fs : List Feature) : XElem :=
+  { ty := ty, attrs := (ID, showInt x) :: gAttrsW ca fs, kids := gKidsW ck fs }
+
 /-- READER LAYER statement -/
 def ParseGenStmt : Prop :=
   ∀ (K : Consts) (ts : TypeSystem) (tsIdx : Nat) (t : TypeRec) (x : Int) (ty : String)
@@ -93,7 +109,7 @@ def InlW (K : Consts) (H : Heap) (f : Feature) (v : Val) (av : Option String) (k
 /-- the canonical shape of the output of `renderFeature` -/
 def featOut (f : Feature) (av : Option String) (ks : List (Option String)) :
     List (String × String) × List (String × Option String) :=
-  ((match av with | some s => [(f.name, s)] | none => []), ks.map (fun e => (f.name, e)))
+  ((match av with | some s => [(xmlName f, s)] | none => []), ks.map (fun e => (xmlName f, e)))
 
 /-- WRITER LAYER statement, shared features: like a flat reference -/
 def RenderSharedStmt : Prop :=
